@@ -231,8 +231,18 @@ func (in *Interp) stmt(s Stmt, fr *frame) ctl {
 	case *ForRange:
 		lo := in.eval(n.Lo, fr).(int64)
 		hi := in.eval(n.Hi, fr).(int64)
-		for i := lo; ; i++ {
-			if n.Incl && !in.cmp("<=", n.T, i, hi) || !n.Incl && !in.cmp("<", n.T, i, hi) {
+		step := int64(1)
+		if n.Step != nil {
+			step = in.eval(n.Step, fr).(int64)
+		}
+		// bounds and step are evaluated once (start, end, step); the loop runs while the value has
+		// not passed the end in the direction of the step; a zero step never runs
+		for i := lo; ; i = Norm(n.T, i+step) {
+			up, down := "<", ">"
+			if n.Incl {
+				up, down = "<=", ">="
+			}
+			if !(in.cmp(">", n.T, step, 0) && in.cmp(up, n.T, i, hi) || in.cmp("<", n.T, step, 0) && in.cmp(down, n.T, i, hi)) {
 				break
 			}
 			in.tick()
